@@ -2,10 +2,21 @@ package props
 
 import (
 	"bytes"
+	"context"
 	"fmt"
+	"os"
+	"os/exec"
 	"runtime"
+	"strconv"
+	"strings"
 	"sync"
+	"sync/atomic"
 	"testing"
+
+	"github.com/cloudwego/gopkg/bufiox"
+	"github.com/cloudwego/gopkg/protocol/thrift/base"
+	"github.com/cloudwego/gopkg/protocol/thrift/unknownfields"
+	"github.com/cloudwego/gopkg/protocol/ttheader"
 
 	"github.com/cloudwego/gopkg/container/strmap"
 	"github.com/cloudwego/gopkg/protocol/thrift"
@@ -28,6 +39,8 @@ type ConcTask struct {
 	Frame   *TTHFrameCase `json:"frame,omitempty"`   // a hand-built TTHeader frame (sections in any order, transforms) decoded and compared with the reference
 	ReadStr []int         `json:"readstr,omitempty"` // lengths decoded with Binary.ReadString/ReadBinary
 	MapGet  int           `json:"mapget,omitempty"`  // number of Get probes on the shared maps
+	UF      *UFCase       `json:"uf,omitempty"`      // unknown-field conversion round trip
+	UFBad   []evid.Hex    `json:"uf_bad,omitempty"`  // inputs ConvertUnknownFields has to reject
 }
 
 // ConcCase is a set of per-goroutine task lists.
@@ -65,6 +78,19 @@ func runConcTask(g, idx int, tk *ConcTask, sm *strmap.StrMap[int], s2s *strmap.S
 			}
 		}
 		return nil
+	case tk.UF != nil:
+		return checkUnknownFields(*tk.UF, &cv)
+	case tk.UFBad != nil:
+		for rep := 0; rep < 50; rep++ {
+			for _, b := range tk.UFBad {
+				if _, ok := parseFieldSeq(b); ok {
+					continue
+				}
+				if _, err := unknownfields.ConvertUnknownFields(b); err == nil {
+					return evid.Failf("goroutine %d task %d: ConvertUnknownFields accepted a malformed field sequence %s", g, idx, hx(b))
+				}
+			}
+		}
 	case tk.ReadStr != nil:
 		in := make([]byte, 0, 4096)
 		for i, l := range tk.ReadStr {
@@ -204,6 +230,10 @@ func checkConcurrent(c ConcCase, cv *cov) *evid.Violation {
 				kinds["fastcodec"] = true
 			case tk.Frame != nil:
 				kinds["tth_frame_with_transforms"] = true
+			case tk.UF != nil:
+				kinds["unknown_fields"] = true
+			case tk.UFBad != nil:
+				kinds["unknown_fields_rejected"] = true
 			case tk.ReadStr != nil:
 				kinds["readstr"] = true
 			case tk.MapGet > 0:
@@ -220,7 +250,24 @@ func checkConcurrent(c ConcCase, cv *cov) *evid.Violation {
 func init() { register("c14_concurrent", checkConcurrent) }
 
 func genConcTask(t *rapid.T) ConcTask {
-	switch rapid.IntRange(0, 8).Draw(t, "task") {
+	switch rapid.IntRange(0, 10).Draw(t, "task") {
+	case 9:
+		c := genUFCase(t)
+		if len(c.Data) > 20000 {
+			return ConcTask{MapGet: 10}
+		}
+		c.WarmUp = 0
+		return ConcTask{UF: &c}
+	case 10:
+		c := genUFCase(t)
+		var bad []evid.Hex
+		for i := 0; i < 3; i++ {
+			if len(c.Data) > 1 {
+				bad = append(bad, append([]byte(nil), c.Data[:rapid.IntRange(1, len(c.Data)-1).Draw(t, "cut")]...))
+			}
+		}
+		bad = append(bad, []byte{0x0b, 0, 1, 0xff, 0xff, 0xff, 0xff})
+		return ConcTask{UFBad: bad}
 	case 8:
 		// a frame as another implementation could send it: 1..4 transform ids, sections in any order
 		tr := rapid.SliceOfN(rapid.Byte(), 1, 4).Draw(t, "transforms")
@@ -314,7 +361,7 @@ func genConcCase(t *rapid.T) ConcCase {
 }
 
 func TestC14_Concurrent(t *testing.T) {
-	rec := evid.New("C14", "c14_concurrent", "rapid: program sets of 2..32 goroutines (GOMAXPROCS 2/4/16), each with its own list of 1..6 self-checking tasks drawn from: codec script round trip over private bufiox instances, all five skippers incl. the three pooled skip decoders, TTHeader encode/decode, raw bufiox reader and writer histories (contending on the shared mcache across size classes), shipped FastCodec structs, Binary.ReadString/ReadBinary on tagged payloads, and Get on shared StrMap/Str2Str instances loaded before the goroutines start; every task applies the sequential oracle of its property; each set repeated; built with -race, any DATA RACE report is a violation; non-trivial = >= 2 goroutines (always)")
+	rec := evid.New("C14", "c14_concurrent", "rapid: program sets of 2..32 goroutines (GOMAXPROCS 2/4/16), each with its own list of 1..6 self-checking tasks drawn from: codec script round trip over private bufiox instances, all five skippers incl. the three pooled skip decoders, TTHeader encode/decode, raw bufiox reader and writer histories (contending on the shared mcache across size classes), shipped FastCodec structs, unknown-field conversion round trips and rejected conversions, Binary.ReadString/ReadBinary on tagged payloads, and Get on shared StrMap/Str2Str instances loaded before the goroutines start; every task applies the sequential oracle of its property; each set repeated; built with -race, any DATA RACE report is a violation; non-trivial = >= 2 goroutines (always)")
 	defer rec.Flush()
 	rec.Assume("schedules are chosen by the Go scheduler: repeated randomized stress, no schedule coverage is claimed")
 	shard, _ := evid.Shard()
@@ -324,4 +371,151 @@ func TestC14_Concurrent(t *testing.T) {
 	thrift.SetSpanCache(span)
 	defer thrift.SetSpanCache(false)
 	runRapid(t, rec, "c14_concurrent", evid.Pick(150, 600), genConcCase, checkConcurrent)
+}
+
+// ---- first use in a fresh process ------------------------------------------------------------------------
+
+// FirstUseCase: a fresh process (the race-instrumented test binary re-executed) in which 8 goroutines,
+// each with its own instances, meet every failing path for the first time at the same moment.
+type FirstUseCase struct {
+	Seed int `json:"seed"`
+}
+
+func c14FirstUseChild() {
+	seed, _ := strconv.Atoi(os.Getenv("VERIF_C14_SEED"))
+	const g = 8
+	runtime.GOMAXPROCS(16)
+	// a permutation of all type bytes, derived from the seed (pure function of the case)
+	perm := make([]int, 256)
+	for i := range perm {
+		perm[i] = i
+	}
+	x := uint64(seed)*0x9e3779b97f4a7c15 + 1
+	for i := 255; i > 0; i-- {
+		x ^= x << 13
+		x ^= x >> 7
+		x ^= x << 17
+		j := int(x % uint64(i+1))
+		perm[i], perm[j] = perm[j], perm[i]
+	}
+	rounds := len(perm)
+	barrier := make([]int32, rounds)
+	texts := make([][g]string, rounds)
+	var wg sync.WaitGroup
+	for w := 0; w < g; w++ {
+		wg.Add(1)
+		go func(w int) {
+			defer wg.Done()
+			for r := 0; r < rounds; r++ {
+				tb := thrift.TType(perm[r])
+				data := []byte{byte(perm[r]), 0, 1, 0, 0, 0, 1, 7, 0, 0, 0}
+				atomic.AddInt32(&barrier[r], 1)
+				for atomic.LoadInt32(&barrier[r]) < g {
+				}
+				var sb strings.Builder
+				note := func(err error) {
+					if err != nil {
+						sb.WriteString(err.Error())
+					}
+					sb.WriteByte('|')
+				}
+				// a struct whose only field has the type byte under test, and the bare type
+				_, err := thrift.Binary.Skip(data, thrift.STRUCT)
+				note(err)
+				_, err = thrift.Binary.Skip(data[3:], tb)
+				note(err)
+				bd := thrift.NewBytesSkipDecoder(data)
+				_, err = bd.Next(thrift.STRUCT)
+				note(err)
+				bd.Release()
+				br := thrift.NewBufferReader(bufiox.NewBytesReader(data))
+				note(br.Skip(thrift.STRUCT))
+				br.Recycle()
+				br = thrift.NewBufferReader(bufiox.NewBytesReader(data[3:]))
+				note(br.Skip(tb))
+				br.Recycle()
+				rb := bufiox.NewBytesReader(data)
+				sd := thrift.NewSkipDecoder(rb)
+				_, err = sd.Next(thrift.STRUCT)
+				note(err)
+				sd.Release()
+				rb.Release(nil)
+				rd := thrift.NewReaderSkipDecoder(bytes.NewReader(data))
+				_, err = rd.Next(thrift.STRUCT)
+				note(err)
+				rd.Release()
+				var ae thrift.ApplicationException
+				_, err = ae.FastRead(data)
+				note(err)
+				var bs base.Base
+				_, err = bs.FastRead(data)
+				note(err)
+				_, err = unknownfields.ConvertUnknownFields(data)
+				note(err)
+				_, err = ttheader.DecodeFromBytes(context.Background(), append([]byte{0, 0, 0, 20, 0x10, 0, 0, 0, 0, 0, 0, 0, 0, 1, byte(perm[r]), 0, byte(perm[r]), 0}, data...))
+				note(err)
+				note(thrift.PrependError("p: ", thrift.NewProtocolException(int32(perm[r]), "m")))
+				texts[r][w] = sb.String()
+			}
+		}(w)
+	}
+	wg.Wait()
+	for r := range texts {
+		for w := 1; w < g; w++ {
+			if texts[r][w] != texts[r][0] {
+				fmt.Printf("C14-FIRST-USE-FAILED: type byte %d: goroutine %d observed %q, goroutine 0 observed %q\n", perm[r], w, texts[r][w], texts[r][0])
+				os.Exit(3)
+			}
+		}
+	}
+}
+
+func checkFirstUse(c FirstUseCase, cv *cov) *evid.Violation {
+	cmd := exec.Command(os.Args[0], "-test.run", "^TestC14_FirstUse$")
+	cmd.Env = append(os.Environ(), "VERIF_C14_CHILD=1", fmt.Sprintf("VERIF_C14_SEED=%d", c.Seed), "VERIF_OUT=", "GORACE=halt_on_error=1")
+	out, err := cmd.CombinedOutput()
+	cv.nontrivial = true
+	if bytes.Contains(out, []byte("DATA RACE")) {
+		msg := string(out)
+		if len(msg) > 1800 {
+			msg = msg[:1800]
+		}
+		return evid.Failf("data race between independent instances on their first use in a fresh process (8 goroutines, type-byte order from seed %d): %s", c.Seed, msg)
+	}
+	if bytes.Contains(out, []byte("C14-FIRST-USE-FAILED")) {
+		msg := string(out)
+		if len(msg) > 800 {
+			msg = msg[:800]
+		}
+		return evid.Failf("independent instances used at the same time for the first time in a fresh process disagree (seed %d): %s", c.Seed, msg)
+	}
+	if err != nil {
+		cv.label("child_could_not_run") // resources, signals: inconclusive for this child, never a violation
+	}
+	return nil
+}
+
+func init() { register("c14_first_use", checkFirstUse) }
+
+// TestC14_FirstUse re-executes the (race-instrumented) test binary; see FirstUseCase.
+func TestC14_FirstUse(t *testing.T) {
+	if os.Getenv("VERIF_C14_CHILD") == "1" {
+		c14FirstUseChild()
+		return
+	}
+	rec := evid.New("C14", "c14_first_use", "fresh processes (the race-instrumented test binary re-executed): 8 goroutines, each with its own buffers and decoders, walk all 256 type bytes in a seed-derived order; for every byte they leave a spin barrier together and run the failing paths of all five skippers, the shipped FastRead structs, unknown-field conversion, TTHeader decode and PrependError for the first time in the process; any DATA RACE report or any difference between what the goroutines observed is a violation; every child process is one evaluation; non-trivial = always")
+	defer rec.Flush()
+	n := evid.Pick(5, 16)
+	shard, _ := evid.Shard()
+	base := int(seedFor("c14_first_use") % 1000003)
+	for i := 0; i < n; i++ {
+		c := FirstUseCase{Seed: base + shard*1000 + i}
+		var cv cov
+		v := checkFirstUse(c, &cv)
+		rec.Count(evid.HashJSON(c), cv.nontrivial, func() interface{} { return c }, cv.labels...)
+		if v != nil {
+			failEnum(t, rec, "c14_first_use", c, v)
+			return
+		}
+	}
 }
